@@ -35,7 +35,7 @@ func init() {
 		Quick: 5000, Thorough: 500000,
 		Run:        runC08,
 		Rule:       "one run = one generated (type, value, protocol in {binary strict, binary non-strict, compact}) whose encoding E decodes; evaluations = individual faulted decodes: EOF at every offset of E through bytes.Reader and through the simulated reader (both io.ByteReader flavours), a reader error at every offset (all offsets up to 512 bytes, sampled beyond), chunk schedules, 6 byte substitutions per offset, every length / element count set to negative, oversized and out-of-range values, foreign fields of 12 shapes x 4 undeclared ids at every field boundary of every struct level, trailing bytes, each required field removed, each declared top-level field given another wire type, direct Reader method calls on arbitrary bytes. non-trivial = E has at least 2 bytes; distinct = distinct hash of (type, protocol, E)",
-		FaultKinds: []string{"eof-at-offset(bytes.Reader)", "eof-at-offset(simulated reader)", "eof-at-offset(simulated ByteReader)", "reader-error-at-offset", "chunked-delivery", "rot(byte-substitution)", "size-negative", "size-oversized", "size-out-of-range", "foreign-field", "foreign-field-nested-level", "foreign-field-with-corrupted-size", "trailing-bytes", "required-field-removed", "failed-decode-then-decode", "wire-type-changed(strict)", "wire-type-changed(non-strict)", "reader-method-on-arbitrary-bytes", "scaling-probe(n vs 8n elements)", "inflated-count-on-a-long-collection", "protocol:binary", "protocol:binary-nonstrict", "protocol:compact", "cut-inside-length", "data+err"},
+		FaultKinds: []string{"eof-at-offset(bytes.Reader)", "eof-at-offset(simulated reader)", "eof-at-offset(simulated ByteReader)", "reader-error-at-offset", "chunked-delivery", "rot(byte-substitution)", "size-negative", "size-oversized", "size-out-of-range", "foreign-field", "foreign-field-nested-level", "foreign-field-with-corrupted-size", "trailing-bytes", "required-field-removed", "failed-decode-then-decode", "wire-type-changed(strict)", "wire-type-changed(non-strict)", "element-type-changed(strict)", "reader-method-on-arbitrary-bytes", "scaling-probe(n vs 8n elements)", "inflated-count-on-a-long-collection", "protocol:binary", "protocol:binary-nonstrict", "protocol:compact", "cut-inside-length", "data+err"},
 		ProbeNames: []string{"messages", "precondition-failed(skipped)", "struct-levels>1", "E>=128B", "required-fields", "alloc-precise-samples", "eof-k0", "sites", "reference-parse-failed(structural operators skipped)"},
 		Real:       []string{"thrift.Unmarshal, thrift.Decoder (strict and non-strict), binary and compact Readers compiled from /repo's working tree with sync and sync/atomic redirected to the shim (deterministic simulated sync.Pool, pristine library state before every run)"},
 		Model:      []string{"storage/transport medium (fault operators over the encoded bytes)", "io.Reader (simio.Reader with and without io.ByteReader)", "reference thrift parser/serialiser for both protocols (verifsim/ref) used to locate sizes and struct levels and to build foreign fields, removed fields and retyped fields"},
@@ -770,6 +770,62 @@ func runC08(r *core.Run) {
 				return
 			}
 			r.Fault("wire-type-changed(non-strict)")
+		}
+		// I2. the elements (keys, values) of a declared non-empty collection given
+		// another wire type, all of them well-formed
+		for fi := range tree.Fields {
+			f := tree.Fields[fi]
+			if !top[int(f.ID)] {
+				continue
+			}
+			retype := func(vs []ref.TVal, was int8) ([]ref.TVal, int8) {
+				nt, nv := int8(ref.TBinary), ref.TVal{Type: ref.TBinary, Bin: []byte("re")}
+				if was == ref.TBinary {
+					nt, nv = ref.TI32, ref.TVal{Type: ref.TI32, I: 7}
+				}
+				out := make([]ref.TVal, len(vs))
+				for i := range out {
+					out[i] = nv
+				}
+				return out, nt
+			}
+			var variants []ref.TVal
+			switch f.Val.Type {
+			case ref.TList, ref.TSet:
+				if len(f.Val.Elems) > 0 {
+					v := f.Val
+					v.Elems, v.Elem = retype(f.Val.Elems, f.Val.Elem)
+					variants = append(variants, v)
+				}
+			case ref.TMap:
+				if len(f.Val.Keys) > 0 {
+					v := f.Val
+					v.Keys, v.Key = retype(f.Val.Keys, f.Val.Key)
+					variants = append(variants, v)
+					v = f.Val
+					v.Vals, v.Val = retype(f.Val.Vals, f.Val.Val)
+					variants = append(variants, v)
+				}
+			}
+			for _, nv := range variants {
+				saved := tree.Fields[fi]
+				tree.Fields[fi].Val = nv
+				m := ref.ThriftAppend(nil, &tree, compact, stop3)
+				tree.Fields[fi] = saved
+				_, err, ok := c.decode(m, c08Mode{strict: true, decoder: true}, "element-type-changed")
+				if !ok {
+					return
+				}
+				r.Fault("element-type-changed(strict)")
+				var tm *thrift.TypeMismatch
+				if !errors.As(err, &tm) {
+					fail("type-mismatch", "element-type-mismatch-not-reported", m, "type-mismatch(strict)", "declared field %d: the elements of its non-empty collection (thrift type %d) encoded with another thrift type: strict decoding returned %v instead of *thrift.TypeMismatch (%s, type %s)\ninput=%x", f.ID, f.Val.Type, err, thriftProtoNames[pi], ty.name, clip(m, 300))
+					return
+				}
+				if _, _, ok := c.decode(m, c08Mode{}, "element-type-changed"); !ok {
+					return
+				}
+			}
 		}
 	}
 
